@@ -94,7 +94,7 @@ func c28Sign(txn transactions.Transaction, p *c28Principal, broken bool, r *kit.
 
 type c28Step struct {
 	Sender, Claimed, Current, RekeyTo string
-	Broken                           bool
+	Broken                            bool
 }
 
 func TestVerifC28Rekey(t *testing.T) {
@@ -168,7 +168,7 @@ func c28RekeyCase(c *kit.Ctx, t testing.TB, ci int, cv protocol.ConsensusVersion
 			senders = append(senders, p)
 		}
 	}
-	env := cevNewEnv(c, t, r, cv, cevGenesis{nAccts: 1, balance: 1_000_000_000_000, sinkBal: 1_000_000_000, extra: extra})
+	env := cevNewEnv(c, t, r, cv, cevGenesis{nAccts: 1, balance: 1_000_000_000_000, sinkBal: 1_000_000_000, extra: extra, defaultCaches: ci%4 == 3})
 	defer env.close()
 	cache := env.l.VerifiedTransactionCache()
 
